@@ -20,17 +20,31 @@ which kinds of change already existed and asked for different, harder ones. Each
 worktree was removed. `seeded/<name>/{patch.diff, demo.py, README.md, meta.json}`; `meta.json` records what was run
 and what each check said *with the machinery as committed* (`tools/refresh_seeds.py` re-runs them).
 
-The loop was: seed -> run -> strengthen the check *generally* where it missed (never by special-casing the patch) ->
-re-run everything. Round 1 (48 changes): 38 caught at once; the 10 misses led to the threads families of C03, C07,
-C08, C10, kills at every controller step and falsy work results in C14, id reuse in C15, `min_voters = 0` and colony
-changes in C06, the stale-feedback clause in C18. Round 2 (48 changes, harder): 24 caught at once; the misses led to
-C09's threads/linearizability family, field-equal twins, verbose runs and the statistics clause in C13, `reset` in
-C05's workloads, raising observer callbacks (C04, C05, C09, C08), re-used executors/diagrams and `enforce_static_checks`
-in C16, falsy names and `None` outputs in C19, shared cascades, re-entrant supervisors and empty final answers in C18,
-system-level tolerance bounds in C17, and one more genuine defect in `/repo` (C14, §9.3). Round 3 so far covers C04,
-C05, C09, C13 (12 changes). A change seeded under one property's text is sometimes a defect of a neighbouring
-property's kind (a sequential accounting bug seeded under C05, a race seeded under C04): the table shows which check
-reports it.
+The loop was: seed -> run -> strengthen the check *generally* where it missed (never by special-casing the patch;
+`notes/ROUND3_COMMON.md` is the list of general lessons handed to the builders) -> re-run everything.
+
+* Round 1 (48 changes): 38 caught at once. The 10 misses led to the threads families of C03, C07, C08, C10, kills at every
+  controller step and falsy work results in C14, id reuse in C15, `min_voters = 0` and colony changes in C06, the
+  stale-feedback clause in C18.
+* Round 2 (48 changes, told what existed, asked for harder ones): 24 caught at once. The misses led to C09's
+  threads/linearizability family, field-equal twins, verbose runs and the statistics clause in C13, `reset` in C05's
+  workloads, raising observer callbacks (C04, C05, C09, C08, C10, C19), re-used executors/diagrams and
+  `enforce_static_checks` in C16, falsy names and `None` outputs in C19, shared cascades, re-entrant supervisors and
+  empty final answers in C18, system-level tolerance bounds in C17, threads in C06 — and to **two more genuine defects
+  in `/repo`** (C14 work-after-kill, C19 raising stage observer; §9.3).
+* Round 3 (48 changes, told about rounds 1–2): 22 caught at once (13 of the 36 aimed at builder-made checks, 9 of my 12).
+  The misses led to mutable arguments (agents rewriting the Signal, observers editing the StageResult), shared
+  callables, cache-capacity floods, structured names (dotted, same-named input/output ports), protocol workers,
+  built-in exception types with empty messages, large tool payloads, constructor flags that tests never flip
+  (`enable_reliability_tracking`, `tolerance`, `window_size`, `watchdog_exempt`, `default_expression`), re-registration of held
+  resources, kill + re-queue under the same id.
+* With the machinery as committed, **141 of the 144 seeded changes are reported (exit 1)**; the three that are not are
+  *acknowledged* misses, each because the statement does not decide the point and a clause that caught it would also
+  alarm on conforming implementations (C16-r3-2 spliced wires bypassing `connect()`; C17-r3-3 which confirmed threats must be
+  graded CRITICAL; C19-r3-1 step-wise clamp versus clamp of the plain product) — reasons in the table and in `meta.json`.
+
+A change seeded under one property's text is sometimes a defect of a neighbouring property's kind (a sequential
+accounting bug seeded under C05, a race seeded under C04): the table shows which check reports it.
 
 '''
 open(p, "w").write(s + intro + table + "\n")
